@@ -2,45 +2,24 @@ package main
 
 import (
 	"fmt"
-	"go/ast"
-	"go/types"
-	"sort"
-	"strings"
+	"verif/checker/internal/codec"
 	"verif/checker/internal/core"
 )
 
 func main() {
 	c := core.NewCtx("/repo", "quick", "X", 0)
+	defer c.Cleanup()
 	if err := c.Load(); err != nil { panic(err) }
-	for _, rel := range []string{"features/fastreflection", "features/protoc", "generator", "cmd/protoc-gen-go-pulsar", "features/fastreflection/copied"} {
-		p := c.Pkg(rel)
-		for _, f := range p.Syntax {
-			for _, d := range f.Decls {
-				fd, ok := d.(*ast.FuncDecl); if !ok || fd.Body == nil { continue }
-				ast.Inspect(fd.Body, func(n ast.Node) bool {
-					switch t := n.(type) {
-					case *ast.SwitchStmt:
-						if t.Tag == nil { return true }
-						tt := p.TypesInfo.TypeOf(t.Tag)
-						if tt == nil || !strings.HasSuffix(tt.String(), "protoreflect.Kind") { return true }
-						var ks []string
-						def := false
-						for _, cs := range t.Body.List {
-							cc := cs.(*ast.CaseClause)
-							if cc.List == nil { def = true }
-							for _, e := range cc.List { ks = append(ks, strings.TrimPrefix(types.ExprString(e), "protoreflect.")) }
-						}
-						sort.Strings(ks)
-						fmt.Printf("SWITCH %s %s:%d tag=%s default=%v n=%d %v\n", rel, fd.Name.Name, p.Fset.Position(t.Pos()).Line, types.ExprString(t.Tag), def, len(ks), ks)
-					case *ast.RangeStmt:
-						tt := p.TypesInfo.TypeOf(t.X)
-						if _, ok := tt.Underlying().(*types.Map); ok {
-							fmt.Printf("MAPRANGE %s %s:%d %s\n", rel, fd.Name.Name, p.Fset.Position(t.Pos()).Line, types.ExprString(t.X))
-						}
-					}
-					return true
-				})
-			}
-		}
+	codec.RunDec(c)
+	codec.RunUnkAccessors(c)
+	codec.RunOpts(c)
+	ok, bad := 0, 0
+	cnt := map[string]int{}
+	for _, o := range c.Obligations() {
+		if o.Status == core.OK { ok++; continue }
+		bad++
+		cnt[o.Rule]++
+		if cnt[o.Rule] < 4 { fmt.Println(o.Status, o.Rule, o.Construct, "::", o.Detail, o.Pos) }
 	}
+	fmt.Println("ok", ok, "bad", bad, cnt, c.Stats)
 }
